@@ -85,7 +85,7 @@ def rule_r1_r4(rep, repo, eng):
         for o, chains in st.esc.items():
             if o[0] == "GE":
                 key = (o[1], o[2])
-            elif o[0] == "F" and o in eng.SHARED_OWNER:
+            elif o[0] in ("F", "L") and o in eng.SHARED_OWNER:
                 key = eng.SHARED_OWNER[o][0]
             else:
                 continue
@@ -180,12 +180,17 @@ def rule_r3(rep, repo):
     rep.floor("transform classes", len(classes), 12)
     scaled = []
     n_use = 0
+    seen_writers = set()
     for k in classes:
         ci = repo.classes[k]
-        # --- writers of fields outside __init__
-        for mname, f in list(ci.methods.items()) + [(n + ".setter", s) for n, s in ci.setters.items()]:
-            if mname == "__init__":
+        # --- writers of fields outside __init__ (own and inherited methods: the base class's
+        # transform_1d_grid & co. run on every transform instance)
+        from gridlint import e3 as _e3
+        for mname, f in sorted(_e3.reachable_methods(repo, k).items()):
+            if mname == "__init__" or (f.qual, "seen") in seen_writers:
                 continue
+            if f.cls != k:
+                seen_writers.add((f.qual, "seen"))
             for guards, stmt in _walk_with_guards(strip_docstring(f.node.body)):
                 tgts = []
                 if isinstance(stmt, ast.Assign):
@@ -205,7 +210,7 @@ def rule_r3(rep, repo):
                                     scaled.append((k, fld))
                             else:
                                 rep.violation(
-                                    "R3.transform-stateless", f"{k}.{mname}", fld,
+                                    "R3.transform-stateless", f.qual, fld,
                                     f"field self.{fld} of a radial transform is written after construction "
                                     f"outside an `is None` guard: results depend on the order of earlier calls",
                                     repo.rel(f.module, stmt))
@@ -345,6 +350,79 @@ def rule_r5(rep, repo):
     return ok
 
 
+def rule_r6(rep, repo, eng):
+    """Memo-key completeness: when a value is stored into module-level state under a key, the key
+    (together with whatever selects the container) must depend on every input the value depends on;
+    otherwise a later call with another value of the missing input is served the remembered result."""
+    from gridlint.props.c07 import local_defs
+    n = 0
+    for q, f in repo.funcs.items():
+        if f.is_lambda:
+            continue
+        stores = []
+        for s_ in ast.walk(f.node):
+            if isinstance(s_, ast.Assign) and isinstance(s_.targets[0], ast.Subscript):
+                stores.append(s_)
+        if not stores or repo.by_node.get(id(f.node)) is not f:
+            continue
+        st = eng.st[q]
+        defs = local_defs(f.node)
+        params = set(f.allparams)
+        for s_ in stores:
+            rec = [r for (ln, col, kind), r in st.sink_sites.items() if ln == s_.lineno and col == s_.col_offset]
+            if not rec or not any(o[0] == "G" for r in rec for o in r["origins"]):
+                continue
+            n += 1
+            tgt = s_.targets[0]
+            vdeps = _deps(s_.value, params, defs)
+            kdeps = _deps(tgt.slice, params, defs) | _deps(tgt.value, params, defs)
+            # variables produced by one call form a group: knowing one fixes the others
+            groups = _call_groups(f.node)
+            covered = set(kdeps)
+            for g in groups:
+                if g & _names(tgt.slice):
+                    for nm in g:
+                        covered |= _deps(ast.Name(id=nm, ctx=ast.Load()), params, defs)
+            missing = {p_ for p_ in vdeps - covered if p_ not in ("self", "cls", "cache")}
+            cons = f"{q}"
+            if missing:
+                rep.violation("R6.memo-key-complete", cons, norm(tgt.value),
+                              f"`{norm(s_)[:90]}` remembers a value that depends on {sorted(vdeps)} under a key that only "
+                              f"depends on {sorted(kdeps) or 'nothing'}: a later call with another `{sorted(missing)[0]}` is "
+                              f"served the result remembered for the first one", repo.rel(f.module, s_))
+            else:
+                rep.ok("R6.memo-key-complete", f"{q}:{norm(tgt)[:40]}", repo.rel(f.module, s_),
+                       f"value deps {sorted(vdeps)} covered by key/container deps {sorted(kdeps)}")
+    rep.floor("stores into module-level containers", n, 1)
+
+
+def _names(e):
+    return {x.id for x in ast.walk(e) if isinstance(x, ast.Name)}
+
+
+def _deps(expr, params, defs, seen=None):
+    seen = seen if seen is not None else set()
+    out = set()
+    for n in ast.walk(expr):
+        if isinstance(n, ast.Name):
+            if n.id in params:
+                out.add(n.id)
+            if n.id in defs and n.id not in seen:
+                seen.add(n.id)
+                for v in defs[n.id]:
+                    out |= _deps(v, params, defs, seen)
+    return out
+
+
+def _call_groups(fn):
+    """Sets of names assigned together from one call (`a, b = f(...)`)."""
+    out = []
+    for s_ in ast.walk(fn):
+        if isinstance(s_, ast.Assign) and isinstance(s_.targets[0], ast.Tuple) and isinstance(s_.value, ast.Call):
+            out.append({x.id for x in s_.targets[0].elts if isinstance(x, ast.Name)})
+    return out
+
+
 def _leaves(t):
     if isinstance(t, (ast.Tuple, ast.List)):
         for e in t.elts:
@@ -369,6 +447,7 @@ def run(tier="quick", root="/repo", evidence_dir=None, quiet=False):
     rule_r4(rep, repo)
     rule_r3(rep, repo)
     rule_r5(rep, repo)
+    rule_r6(rep, repo, eng)
     from gridlint.props import c02
     c02.rule_dispatch(rep, repo, prefix="R2.")
     rep.extra.update({"functions_analysed": len(repo.funcs), "fixpoint_rounds": eng.rounds,
